@@ -108,6 +108,18 @@ def check(ctx: Ctx):
         any(isinstance(c, ast.Call) and call_name(c) == "load_dcop" and norm(c.args[0]) == "content" for c in ast.walk(lf.node))
     ctx.check(ok, "R-STRFIRST", "the content of every file is concatenated in order and parsed once", lf, loops[0] if loops else lf.node, "")
 
+    # relative `source:` files of intentional constraints resolve against the directory of the FIRST file (the main one)
+    md = [a for a in ast.walk(lf.node) if isinstance(a, (ast.Assign, ast.AugAssign)) and any(norm(t) == "main_dir" for t in (a.targets if isinstance(a, ast.Assign) else [a.target]))]
+    ffl = FuncFacts(lf.node)
+    inloop = [a for a in md if loops and any(n is a for n in ast.walk(loops[0]))]
+    ok = bool(loops) and len(inloop) == 1 and norm(inloop[0].value) in ("p.parent", "pathlib.Path(filename).parent") and \
+        ("main_dir is None", True) in {(norm(t), q) for t, q in facts_at(ffl, inloop[0])} and \
+        all(norm(a.value) == "None" for a in md if a not in inloop) and \
+        any(isinstance(c, ast.Call) and call_name(c) == "load_dcop" and len(c.args) > 1 and norm(c.args[1]) == "main_dir" for c in ast.walk(lf.node))
+    ctx.check(ok, "R-STRFIRST", "main_dir is the directory of the first file only, and is what load_dcop receives", lf, inloop[0] if inloop else lf.node,
+              "relative source files of intentional constraints are resolved against main_dir: taking it from a later file (e.g. the agents file in another directory) "
+              "loads a different python file or none")
+
     # ---- keys --------------------------------------------------------------------------------------
     pairs = [("_yaml_domains", "_build_domains", "domains"), ("_yaml_variables", "_build_variables", "variables"),
              ("_yaml_constraints", "_build_constraints", "constraints"), ("yaml_agents", "_build_agents", "agents")]
@@ -220,6 +232,18 @@ def check(ctx: Ctx):
             and "values = assignment_matrix(vars, default)" in t and "NAryMatrixRelation(vars, values, name=c_name)" in t and "val_position = values" in t
     ctx.check(ok, "R-MATRIX", "load: token i of a row selects, through variable i's domain, the i-th level of the matrix built over the listed variables", bc, loops[0] if loops else bc.node,
               "pairing token i with another variable's domain writes the value into the wrong cell")
+    tdv = repo.func(OBJ, "Domain.to_domain_value")
+    ctx.touch(tdv)
+    vp = tdv.params[1]
+    loops = [l for l in tdv.node.body if isinstance(l, ast.For) and norm(l.iter) == "enumerate(self._values)" and isinstance(l.target, ast.Tuple) and len(l.target.elts) == 2]
+    ok = len(loops) == 1 and not [a for a in ast.walk(tdv.node) if isinstance(a, (ast.Assign, ast.AugAssign, ast.NamedExpr)) and vp in {n.id for n in ast.walk(a) if isinstance(n, ast.Name) and isinstance(n.ctx, ast.Store)}]
+    if ok:
+        i, v = [norm(e) for e in loops[0].target.elts]
+        ifs = [st for st in loops[0].body if isinstance(st, ast.If)]
+        ok = len(ifs) == 1 and len(loops[0].body) == 1 and norm(ifs[0].test) in (f"str({v}) == {vp}", f"{vp} == str({v})") and [norm(x) for x in ifs[0].body] == [f"return ({i}, {v})"] \
+            and not ifs[0].orelse and not loops[0].orelse and isinstance(tdv.node.body[-1], ast.Raise)
+    ctx.check(ok, "R-MATRIX", "a token denotes the domain value whose str() is exactly the token (first exact match, else an error)", tdv, loops[0] if loops else tdv.node,
+              "dcop_yaml writes str(value): any looser match (case folding, stripping, prefix) maps two distinct values of a domain to one cell")
     am = repo.func(REL, "assignment_matrix")
     ctx.touch(am)
     loops = [l for l in am.node.body if isinstance(l, ast.For) and norm(l.iter) == f"reversed({am.params[0]})"]
@@ -289,6 +313,9 @@ def check(ctx: Ctx):
 _Y = "pydcop/dcop/yamldcop.py"
 _R = "pydcop/dcop/relations.py"
 VARIANTS = [
+    ("domain_value_case_insensitive", "pydcop/dcop/objects.py", "            if str(v) == val:\n                return i, v", "            if str(v).lower() == val.lower():\n                return i, v", "break", "R-MATRIX"),
+    ("domain_value_mirrored", "pydcop/dcop/objects.py", "            if str(v) == val:\n                return i, v", "            if val == str(v):\n                return i, v", "neutral"),
+    ("main_dir_last_file", "pydcop/dcop/yamldcop.py", "        if main_dir is None:\n            main_dir = p.parent\n", "        main_dir = p.parent\n", "break", "R-STRFIRST"),
     ("hosting_default_dropped", _Y, "        if agt.default_hosting_cost or agt.hosting_costs:", "        if agt.hosting_costs:", "break", "R-EMIT"),
     ("matrix_shallow_copy", _R, "        tmp = []\n        for _ in range(len(v.domain)):\n            tmp.append(deepcopy(current))\n        current = tmp", "        current = [current.copy() if isinstance(current, list) else current for _ in range(len(v.domain))]", "break", "R-MATRIX"),
     ("matrix_repeat", _R, "        tmp = []\n        for _ in range(len(v.domain)):\n            tmp.append(deepcopy(current))\n        current = tmp", "        current = [current] * len(v.domain)", "break", "R-MATRIX"),
